@@ -10,7 +10,12 @@ import sys
 PROP = "C07"
 RULE = ("frames x cuttings: structured streams of encoded frames (payload lengths 0,1,7,8,9,2047..2049,65534,65535), "
         "bad-magic and truncated streams, random and exhaustive cuttings into reads, random send/flush scripts with "
-        "partial writes and EAGAIN, an end-of-stream read or read error after every sampled stream (implementation only), handshake deliveries cut at every position with NUL-free noise; a case is "
+        "partial writes and EAGAIN, an end-of-stream read or read error after every sampled stream (implementation only), handshake deliveries cut at every position with NUL-free noise; "
+        "handshake streams whose leading noise ranges over content, encoding and length (every byte value 0x01-0xff before the first "
+        "NUL and between the two NULs, Latin-1/UTF-8 text, sequences that are not UTF-8, CR/LF, escape and format-like sequences, "
+        "pieces of the synchronisation string, single NULs, 5000- and 70000-byte noise, random noise; intact, damaged and missing "
+        "strings) x deliveries x client verbosity 0..3 with the real helpers.log writing to an ASCII sink, on scripted files and "
+        "(short streams) on the real ssh.connect: the client accepts or rejects as hs_spec says and never ends any other way; a case is "
         "non-trivial when it contains at least one complete frame or one cut inside a header/sync string; distinct by content hash; "
         "the real server.main's start (synchronisation string through the real TextIOWrapper/BufferedWriter layering of sys.stdout, "
         "first messages and PONGs through the real Mux/runonce) on a raw descriptor 1 that takes 1..13 bytes per write / per first "
@@ -57,6 +62,32 @@ class FakeR:
 
     def rest(self):
         return b"".join(self.chunks)
+
+
+class FastR(object):
+    """FakeR for long deliveries: the same read() answers without copying the pending delivery on every read"""
+
+    def __init__(self, chunks):
+        self.chunks = [bytes(c) for c in chunks if c]
+        self.i = self.off = 0
+
+    def fileno(self):
+        return 0
+
+    def read(self, n=-1):
+        if self.i >= len(self.chunks):
+            return b""
+        c, o = self.chunks[self.i], self.off
+        if n < 0 or len(c) - o <= n:
+            self.i, self.off = self.i + 1, 0
+            return c[o:]
+        self.off = o + n
+        return c[o:o + n]
+
+    def rest(self):
+        if self.i >= len(self.chunks):
+            return b""
+        return self.chunks[self.i][self.off:] + b"".join(self.chunks[self.i + 1:])
 
 
 class FakeW:
@@ -215,13 +246,41 @@ def ops_parse(txt):
     return ops
 
 
-def impl_hs(chunks):
-    """run the real client._main until the main loop is reached"""
+class LogSink(object):
+    """stands for the client's stderr: an ASCII text stream with the error handler CPython gives sys.stderr
+    (backslashreplace), as under LANG=C; what is logged is kept (size only matters to nobody)"""
+
+    def __init__(self):
+        import io
+        self.raw = io.BytesIO()
+        self.txt = io.TextIOWrapper(self.raw, encoding="ascii", errors="backslashreplace", write_through=True)
+
+    def write(self, s):
+        return self.txt.write(s)
+
+    def flush(self):
+        self.txt.flush()
+
+    def size(self):
+        return len(self.raw.getvalue())
+
+
+def exc_detail(detail, e):
+    if detail is not None:
+        detail["exception"] = type(e).__name__
+        detail["message"] = str(e)[:200]
+
+
+def impl_hs(chunks, verbosity=None, detail=None):
+    """run the real client._main until the main loop is reached.
+    verbosity None: helpers.verbose as it is (0), log calls dropped.  verbosity 0..3: helpers.verbose is set to it
+    (what -v/-vv/-vvv do) and the REAL helpers.log writes to a sink standing for stderr.  detail (a dict): receives
+    the class and message of an exception other than the documented ones, and the number of bytes logged."""
     import sshuttle.client as client
     import sshuttle.ssnet as ssnet
     import sshuttle.ssh as ssh
     import sshuttle.helpers as helpers
-    r = FakeR(chunks)
+    r = FastR(chunks)
 
     class Proc:
         pid = 4242
@@ -245,11 +304,16 @@ def impl_hs(chunks):
 
     def stop(handlers, mux):
         raise StopLoop()
-    old = (ssh.connect, ssnet.runonce, helpers.log, client.log)
+    old = (ssh.connect, ssnet.runonce, helpers.log, client.log, helpers.verbose)
     ssh.connect = fake_connect
     ssnet.runonce = stop
-    client.log = helpers.log = lambda s: None
-    so = sys.stdout
+    so, se = sys.stdout, sys.stderr
+    sink = None
+    if verbosity is None:
+        client.log = helpers.log = lambda s: None
+    else:
+        helpers.verbose = verbosity
+        sink = sys.stderr = LogSink()
     try:
         try:
             client._main(L(), None, FW(), None, "remote", None, False, 0, None, None, False, False,
@@ -259,17 +323,21 @@ def impl_hs(chunks):
         except helpers.Fatal as e:
             if "expected server init string" in str(e):
                 return "0 %s" % hx(r.rest())
+            exc_detail(detail, e)
             return "FATAL %s" % e
         except Exception as e:
+            exc_detail(detail, e)
             return "EXC %s" % type(e).__name__
     finally:
-        ssh.connect, ssnet.runonce, helpers.log, client.log = old
-        sys.stdout = so
+        ssh.connect, ssnet.runonce, helpers.log, client.log, helpers.verbose = old
+        sys.stdout, sys.stderr = so, se
+        if detail is not None and sink is not None:
+            detail["logged_bytes"] = sink.size()
     return "RETURNED"
 
 
-def client_start_run(chunks):
-    """The real client._main from its first line to the main loop on the REAL ssh.connect (only the ssh process is
+def client_start_run(chunks, verbosity=None, detail=None):
+    """(verbosity, detail: as for impl_hs.)  The real client._main from its first line to the main loop on the REAL ssh.connect (only the ssh process is
     absent: Popen is a stub that leaves us the far end of the socket pair), with the two tunnel file objects that
     ssh.connect returns wrapped in recorders.  The server's bytes are delivered piece by piece: the next piece is
     sent only when the client asks for more than has arrived, the stream is closed after the last.  Returns
@@ -358,12 +426,16 @@ def client_start_run(chunks):
         ev.append(("loop", b""))
         mux.flush()                 # what the loop does first when the pipe is writable (shows that writes ARE recorded)
         raise StopLoop()
-    old = (ssh.connect, ssh.ssubprocess, ssnet.runonce, helpers.log, client.log)
+    old = (ssh.connect, ssh.ssubprocess, ssnet.runonce, helpers.log, client.log, helpers.verbose)
     ssh.ssubprocess = types.SimpleNamespace(Popen=FakePopen, PIPE=getattr(old[1], "PIPE", -1))
     ssh.connect = connect
     ssnet.runonce = stop
-    client.log = helpers.log = lambda s: None
-    so = sys.stdout
+    so, se = sys.stdout, sys.stderr
+    if verbosity is None:
+        client.log = helpers.log = lambda s: None
+    else:
+        helpers.verbose = verbosity
+        sys.stderr = LogSink()
     try:
         try:
             client._main(L(), None, FW(), None, "remote.example", None, False, 0, None, None, False, False,
@@ -373,11 +445,14 @@ def client_start_run(chunks):
             outcome = "1"
         except helpers.Fatal as e:
             outcome = "0" if "expected server init string" in str(e) else "FATAL %s" % str(e)[:80]
+            if outcome != "0":
+                exc_detail(detail, e)
         except Exception as e:
             outcome = "EXC %s" % type(e).__name__
+            exc_detail(detail, e)
     finally:
-        ssh.connect, ssh.ssubprocess, ssnet.runonce, helpers.log, client.log = old
-        sys.stdout = so
+        ssh.connect, ssh.ssubprocess, ssnet.runonce, helpers.log, client.log, helpers.verbose = old
+        sys.stdout, sys.stderr = so, se
         for f in list(st.get("files", ())) + [st["peer"]]:
             try:
                 f and f.close()
@@ -413,32 +488,188 @@ def client_start_judge(outcome, ev):
              "handshake_outcome": {"1": "accepted", "0": "rejected"}.get(outcome, outcome)})
 
 
-def client_start_check(ctx, streams):
+WHAT_HS_DIED = {
+    "1": ("the client died with an exception other than the documented Fatal during the start-up handshake although the "
+          "server's synchronisation string arrived intact after the leading noise and every byte was delivered, in order: "
+          "recognition of the string must depend only on where the two NUL bytes and the 12-byte string are — never on what "
+          "the leading noise contains, how long it is or how verbose the client is"),
+    "0": ("the client died with an exception other than the documented Fatal ('expected server init string') on a stream "
+          "whose synchronisation string is missing or damaged: rejecting it must not depend on what the bytes before it "
+          "contain, how many they are or how verbose the client is"),
+}
+WHAT_HS_CUTS = "handshake outcome depends on delivery boundaries"
+WHAT_HS_VERB = ("handshake outcome depends on the client's verbosity level: the same bytes in the same deliveries are accepted "
+                "or rejected differently with more or fewer -v")
+WHAT_HS_SPEC = ("handshake outcome differs from the stream-level specification under every delivery of the stream (skip to "
+                "the first NUL, skip to the next NUL, compare the next 12 bytes with SSHUTTLE0001; leading noise is arbitrary)")
+
+
+def client_start_check(ctx, streams, verbosities=(None,)):
     """implementation only: see client_start_run / client_start_judge"""
     rng = ctx.rng
-    for s in streams:
+    spec = dict(zip(streams, ctx.run_driver(["HSSPEC %s" % hx(s) for s in streams])))
+    for n, s in enumerate(streams):
         cuts = [[s], [s[i:i + 1] for i in range(len(s))]]
         for _ in range(3 if ctx.quick() else 12):
             if len(s) > 1:
                 i = rng.randint(1, len(s) - 1)
                 cuts.append([s[:i], s[i:]])
-        for chunks in cuts:
-            outcome, ev, st = client_start_run(chunks)
-            ctx.case(("client-start", s, tuple(chunks)), nontrivial=True)
+        for k, chunks in enumerate(cuts):
+            verb = verbosities[(n + k) % len(verbosities)]
+            det = {}
+            outcome, ev, st = client_start_run(chunks, verb, det)
+            ctx.case(("client-start", s, tuple(chunks), verb), nontrivial=True)
             ctx.count("client_start_runs")
             ctx.count("client_start_outcome_%s" % outcome.split(" ")[0])
+            if verb is not None:
+                ctx.count("client_start_verbosity_%d" % verb)
             if st["upload_bytes"]:
                 ctx.count("client_start_runs_with_upload_seen")
             if outcome == "1" and any(k == "w" for k, _ in ev):
                 ctx.count("client_start_first_flush_recorded")
             bad = client_start_judge(outcome, ev)
             if bad:
-                ctx.violation(bad[0], {"client_start": {"deliveries": [c.hex() for c in chunks]},
+                ctx.violation(bad[0], {"client_start": {"deliveries": [c.hex() for c in chunks], "verbosity": verb},
                                        "detail": dict(bad[1], upload_bytes=st["upload_bytes"])})
-            ref = impl_hs([c for c in chunks if c]).split(" ")[0]
+            if outcome.split(" ")[0] not in ("0", "1", "FATAL"):
+                ctx.violation(WHAT_HS_DIED[spec[s][:1]], {"client_start": {"deliveries": [c.hex() for c in chunks], "verbosity": verb,
+                                                              "expect": "accepted-or-rejected"},
+                                             "detail": {"stream_hex": s.hex(), "client_outcome": dict(det, outcome=outcome),
+                                                        "stream_level_spec": spec[s][:300],
+                                                        "run": "real ssh.connect, ssh process absent"}})
+            ref = impl_hs([c for c in chunks if c], verb).split(" ")[0]
             if ref != outcome.split(" ")[0]:
                 ctx.disagree("client start: outcome on the real ssh.connect differs from the outcome on scripted files",
                              [c.hex() for c in chunks], outcome, ref)
+
+
+def hs_noise_streams(rng, quick):
+    """Streams for the start-up handshake whose leading noise ranges over everything a remote login shell can print
+    before the server's two NUL bytes: every byte value 0x01..0xff before the first NUL and between the two NULs,
+    8-bit text in several encodings, byte sequences that are not valid UTF-8, control and escape sequences, text that
+    looks like a format string, pieces of the synchronisation string itself, single NULs, very long noise, random
+    noise; with intact, damaged and missing synchronisation strings, so accepted and rejected outcomes both occur.
+    Returns [(kind, stream)]."""
+    sync = b"\0\0SSHUTTLE0001"
+    tail = b"SS\0\0\x42\x07\0\0"       # what the server sends next: the header of its first message
+    allb = bytes(range(1, 256))
+    out = []
+
+    def both(kind, noise, also_both=False):
+        out.append((kind + "/before-first-NUL", noise + sync + tail))
+        out.append((kind + "/between-the-NULs", b"\0" + noise + b"\0SSHUTTLE0001" + tail))
+        if also_both:
+            out.append((kind + "/before-and-between", noise + b"\0" + noise[::-1] + b"\0SSHUTTLE0001" + tail))
+
+    both("all-byte-values", allb, True)
+    both("all-byte-values-descending", allb[::-1])
+    both("high-half", bytes(range(0x80, 0x100)), True)
+    for bad in (b"\xff\xfe", b"\xc3", b"\xe2\x82", b"\xed\xa0\x80", b"\xc0\x80", b"\xf5\x90\x80\x80", b"\x80", b"\xfe",
+                b"ok \xe2\x82 cut\n", b"\xef\xbb\xbf"):
+        both("not-utf8", bad)
+    both("latin1-text", "bash: avertissement : param\xe8tre r\xe9gional non d\xe9fini\n".encode("latin-1"), True)
+    both("utf8-text", "Willkommen auf gr\u00f6\u00dfe.example \u2013 viel Spa\u00df \u2713 \u65e5\u672c\u8a9e \U0001f600\n".encode("utf-8"), True)
+    both("utf16-text", "motd\n".encode("utf-16-le").replace(b"\0", b"\x01"))
+    for t in (b"Python 3.11.2\n", b"Welcome to host.example\r\nLast login: today\r\n\r\n", b"\r", b"\n", b"\n\n\n", b"\r\n",
+              b"no newline at the end", b" ", b"\t\x0b\x0c\x1c\x1d\x1e\x85"):
+        both("ascii-lines", t)
+    for t in (b"\x1b[31mred\x1b[0m\x1b]0;title\x07\r\n", b"\x9b31m\x9c\x90", b"\x7f\x08\x08\x07", b"\x1b", b"\x01\x02\x03\x04"):
+        both("escape-sequences", t)
+    for t in (b"%s %d %(x)s %% %\n", b"{0} {x} {}\n", b"\\x00 \\n \\", b"'\"`$(x)"):
+        both("format-like", t)
+    for t in (b"SSHUTTLE000", b"SSHUTTLE0001", b"SSHUTTLE", b"S", b"SSHUTTLE0001SSHUTTLE0001", b"SS", b"SSHUTTLE0002"):
+        both("piece-of-the-string", t)
+    for kind, s in (("single-NUL-then-string", b"\0SSHUTTLE0001" + tail),
+                    ("string-without-NULs", b"SSHUTTLE0001" + tail),
+                    ("single-NUL-string-then-whole", b"\0SSHUTTLE0001" + sync + tail),
+                    ("three-NULs", b"\0\0\0SSHUTTLE0001" + tail),
+                    ("NUL-in-the-noise-after-the-first", b"a\0b\0c\0SSHUTTLE0001" + tail),
+                    ("only-NUL", b"\0"), ("only-two-NULs", b"\0\0"), ("noise-NUL", b"x\0"), ("NUL-noise-NUL", b"\0x\0"),
+                    ("high-noise-ends-after-NULs", b"\xff\0\xfe\0"), ("high-noise-no-NUL", b"\xff\xfe"),
+                    ("all-byte-values-no-NUL", allb), ("all-byte-values-one-NUL", allb + b"\0" + allb),
+                    ("high-noise-wrong-version", b"\xe9\0\xe9\0SSHUTTLE0002" + tail),
+                    ("high-byte-in-the-string", b"\0\0SSHUTTLE000\xb1" + tail),
+                    ("high-byte-in-the-string", b"\0\0\xd3SHUTTLE0001" + tail),
+                    ("high-noise-short-string", b"\xe9\xe8\0\xe7\0SSHUTTLE000"),
+                    ("high-noise-two-NULs", b"\xe9" + sync + tail),
+                    ("high-bytes-after-the-string", sync + b"\xff\xfe\x80\0\0"),
+                    ("string-twice", sync + sync + tail)):
+        out.append((kind, s))
+    # each byte value on its own (all of them in the thorough tier)
+    special = [0x01, 0x09, 0x0a, 0x0d, 0x1b, 0x25, 0x5c, 0x7f, 0x80, 0x9b, 0xa0, 0xc0, 0xc3, 0xe9, 0xf4, 0xff]
+    vals = sorted(set(special + rng.sample(range(1, 256), 24))) if quick else list(range(1, 256))
+    for n, b in enumerate(vals):
+        one = bytes([b])
+        out.append(("single-byte-noise", (one + sync + tail) if n % 2 == 0 else (b"\0" + one + b"\0SSHUTTLE0001" + tail)))
+    # very long noise
+    def long_noise(n, kind):
+        if kind == "ascii":
+            line = b"Welcome to host.example, all activity is logged. \r\n"
+            return (line * (n // len(line) + 1))[:n]
+        return (allb * (n // 255 + 1))[:n]
+    for n, kind, where in ([(5000, "ascii", 0), (5000, "8bit", 0), (5000, "8bit", 1), (70000, "8bit", 0), (70000, "ascii", 1)] if quick else
+                           [(n, k, w) for n in (5000, 32768, 70000, 140000) for k in ("ascii", "8bit") for w in (0, 1)]):
+        noise = long_noise(n, kind)
+        out.append(("long-noise-%d-%s" % (n, kind), (noise + sync + tail) if where == 0 else (b"\0" + noise + b"\0SSHUTTLE0001" + tail)))
+    # random noise
+    def rnd(n):
+        mode = rng.randrange(3)
+        lo, hi = ((1, 255), (0x80, 0xff), (1, 0x7f))[mode]
+        return bytes(rng.randint(lo, hi) for _ in range(n))
+    for _ in range(30 if quick else 300):
+        n1 = rng.choice([0, 0, 1, 2, 3, 13, 64, 200])
+        n2 = rng.choice([0, 0, 0, 1, 2, 13, 64])
+        tl = rng.choice([tail, b"", rnd(5), b"\0"])
+        how = rng.randrange(8)
+        if how == 0:          # one byte of the string damaged
+            st = bytearray(b"SSHUTTLE0001")
+            st[rng.randrange(12)] = rng.randrange(256)
+            s = rnd(n1) + b"\0" + rnd(n2) + b"\0" + bytes(st) + tl
+        elif how == 1:        # the stream ends early
+            s = rnd(n1) + b"\0" + rnd(n2) + b"\0SSHUTTLE0001" + tl
+            s = s[:rng.randint(0, len(s))]
+        elif how == 2:        # a NUL somewhere in the noise
+            a = bytearray(rnd(max(n1, 1)) + b"\0" + rnd(n2) + b"\0SSHUTTLE0001" + tl)
+            a[rng.randrange(max(n1, 1))] = 0
+            s = bytes(a)
+        else:
+            s = rnd(n1) + b"\0" + rnd(n2) + b"\0SSHUTTLE0001" + tl
+        out.append(("random-noise", s))
+    return out
+
+
+def hs_cuts(rng, s, quick):
+    """deliveries for one handshake stream as lists of (start, end): whole, byte by byte, one cut at every position
+    (short streams) or at the positions that matter plus random ones (longer streams), a few cuts for very long ones"""
+    n = len(s)
+    if n == 0:
+        return [[]]
+    if n <= 6:
+        return list(cuttings(n))
+    whole, single = [(0, n)], [(i, i + 1) for i in range(n)]
+    if n <= 64:
+        pos = set(range(1, n))
+    else:
+        nul = [i for i in range(n) if s[i] == 0][:4]
+        at = s.find(b"SSHUTTLE0001")
+        pos = set()
+        for i in nul:
+            pos.update((i - 1, i, i + 1, i + 2))
+        if at >= 0:
+            pos.update(range(at - 2, at + 15))
+        pos.update((1, 2, n - 1))
+        pos.update(rng.randint(1, n - 1) for _ in range(4 if n > 400 else 16))
+        pos = set(i for i in pos if 0 < i < n)
+    cuts = [whole, single] + [[(0, i), (i, n)] for i in sorted(pos)]
+    for _ in range(2 if quick else 8):
+        pts = sorted(set(rng.randint(1, n - 1) for _ in range(rng.randint(2, 6))))
+        pts = [0] + pts + [n]
+        cuts.append([(pts[i], pts[i + 1]) for i in range(len(pts) - 1)])
+    if n > 400:
+        # what a pipe does with a long banner: pieces of a few hundred bytes
+        k = rng.choice([255, 256, 509])
+        cuts.append([(i, min(i + k, n)) for i in range(0, n, k)])
+    return cuts
 
 
 def encode_py(ch, cmd, data):
@@ -1023,7 +1254,24 @@ def correspondence(ctx):
     t0 = time.time()
     client_start_check(ctx, streams)
     ctx.extra["client_start_check_wall_s"] = round(time.time() - t0, 2)
-    lines, impl, descr = [], [], []
+    # (stream, cut, verbosity, model line, implementation outcome, detail of an unexpected exception)
+    recs = []
+
+    def deliver(s, cut, verb, kind=None):
+        chunks = [s[a:b] for a, b in cut if b > a]
+        # the extracted raw_read measures the pending delivery on every read: quadratic in the size of a delivery —
+        # deliveries too large for that are judged by the stream-level specification alone (hs_run = hs_spec for
+        # every cutting is theorem c07_handshake; the implementation is run on them all the same)
+        line = "HS " + " ".join(hx(c) for c in chunks) if chunks else "HS"
+        if sum(len(c) * len(c) for c in chunks) > 4000000:
+            line = "HSSPEC %s" % hx(s)
+            ctx.count("hs_deliveries_too_large_for_hs_run_judged_by_hs_spec")
+        det = {}
+        recs.append((s, cut, verb, line, impl_hs(chunks, verb, det), det, kind))
+        ctx.count("hs_deliveries")
+        if verb is not None:
+            ctx.count("hs_verbosity_%d" % verb)
+
     for s in streams:
         cuts = list(cuttings(len(s))) if len(s) <= 11 else None
         if cuts is None:
@@ -1036,23 +1284,72 @@ def correspondence(ctx):
                 cuts.append([(0, a), (a, b), (b, len(s))])
             cuts.append([(i, i + 1) for i in range(len(s))])
         for cut in cuts:
-            chunks = [s[a:b] for a, b in cut if b > a]
-            lines.append("HS " + " ".join(hx(c) for c in chunks) if chunks else "HS")
-            impl.append(impl_hs(chunks))
-            descr.append((s, cut))
-            ctx.count("hs_deliveries")
-    out = ctx.run_driver(lines)
-    spec = ctx.run_driver(["HSSPEC %s" % hx(d[0]) for d in descr])
-    for ln, i, o, sp, d in zip(lines, impl, out, spec, descr):
-        ctx.case(("hs", d[0], tuple(d[1])), sample={"kind": "handshake", "deliveries": ln[:100], "result": i} if len(d[1]) == 3 else None)
+            deliver(s, cut, None)
+    # arbitrary leading noise (content, encoding, length) x deliveries x verbosity
+    t0 = time.time()
+    noise = hs_noise_streams(rng, quick)
+    seen_vals = [set(), set()]
+    for n, (kind, s) in enumerate(noise):
+        ctx.count("hs_noise_streams")
+        ctx.count("hs_noise_kind_%s" % kind.split("/")[0])
+        i0 = s.find(b"\0")
+        i1 = s.find(b"\0", i0 + 1) if i0 >= 0 else -1
+        lead = s if i0 < 0 else s[:i0]
+        mid = b"" if i0 < 0 else (s[i0 + 1:] if i1 < 0 else s[i0 + 1:i1])
+        seen_vals[0].update(lead)
+        seen_vals[1].update(mid)
+        if any(c >= 0x80 for c in lead + mid):
+            ctx.count("hs_noise_highbyte_streams")
+            try:
+                (lead + mid).decode("utf-8")
+            except UnicodeDecodeError:
+                ctx.count("hs_noise_not_utf8_streams")
+        if len(s) > 400:
+            ctx.count("hs_noise_long_streams")
+        for k, cut in enumerate(hs_cuts(rng, s, quick)):
+            if k < 2 and (k == 0 or len(s) <= 20000):
+                for verb in (0, 1, 2, 3):          # whole and byte by byte: at every verbosity
+                    deliver(s, cut, verb, kind)
+            else:
+                deliver(s, cut, (n + k) % 4, kind)
+    ctx.extra["hs_noise_byte_values_before_first_nul"] = len(seen_vals[0] - {0})
+    ctx.extra["hs_noise_byte_values_between_the_nuls"] = len(seen_vals[1] - {0})
+    # the same on the real ssh.connect, where affordable
+    short = [s for _, s in noise if len(s) <= 300]
+    pick = short if not quick else [short[i] for i in sorted(rng.sample(range(len(short)), min(40, len(short))))]
+    keep = [s for k, s in noise if k.startswith(("all-byte-values/", "not-utf8/before", "latin1-text/before", "utf8-text/before"))]
+    client_start_check(ctx, [s for s in keep if s not in pick] + pick, verbosities=(0, 1, 2, 3))
+    out = ctx.run_driver([r[3] for r in recs])
+    spec = ctx.run_driver(["HSSPEC %s" % hx(r[0]) for r in recs])
+    ctx.extra["hs_noise_wall_s"] = round(time.time() - t0, 2)
+    tokens = {}
+    for r, sp in zip(recs, spec):
+        tokens.setdefault(r[0], []).append((r[2], r[4].split(" ")[0] == sp.split(" ")[0]))
+    nsample, last_sampled = 0, None
+    for (s, cut, verb, ln, i, det, kind), o, sp in zip(recs, out, spec):
+        sample = None
+        if kind is None and len(cut) == 3:
+            sample = {"kind": "handshake", "deliveries": ln[:100], "result": i}
+        elif kind is not None and len(cut) == 2 and nsample < 60 and last_sampled != s and len(s) < 400:
+            nsample, last_sampled = nsample + 1, s
+            sample = {"kind": "handshake-noise", "noise": kind, "verbosity": verb, "deliveries": ln[:100], "result": i[:40], "spec": sp[:40]}
+        ctx.case(("hs", s, tuple(cut), verb), sample=sample)
+        ctx.count("hs_outcome_%s" % i.split(" ")[0])
         if i != o:
             # does the property fail on the implementation?  oracle = stream-level spec
             holds = (i.split(" ")[0] == sp.split(" ")[0])
-            ctx.disagree("handshake", ln, i, o, holds)
+            ctx.disagree("handshake", ln[:600], i[:300], o[:300], holds)
         if i.split(" ")[0] != sp.split(" ")[0]:
-            ctx.violation("handshake outcome depends on delivery boundaries",
-                          {"stream_hex": hx(d[0]), "deliveries": [hx(d[0][a:b]) for a, b in d[1]],
-                           "client_outcome": i, "stream_level_spec": sp})
+            if i.split(" ")[0] not in ("0", "1", "FATAL"):
+                what = WHAT_HS_DIED[sp[:1]]
+            elif any(ok for v, ok in tokens[s] if v == verb):
+                what = WHAT_HS_CUTS
+            elif any(ok for v, ok in tokens[s]):
+                what = WHAT_HS_VERB
+            else:
+                what = WHAT_HS_SPEC
+            ctx.violation(what, {"stream_hex": hx(s), "deliveries": [hx(s[a:b]) for a, b in cut], "verbosity": verb,
+                                 "noise_kind": kind, "client_outcome": dict(det, outcome=i[:300]), "stream_level_spec": sp[:300]})
     ctx.programs = ctx.evaluations
 
 
@@ -1068,9 +1365,12 @@ def replay(ctx, rp):
         return bad is not None
     if "client_start" in r:
         chunks = [bytes.fromhex(c) for c in r["client_start"]["deliveries"]]
-        outcome, ev, st = client_start_run(chunks)
+        det = {}
+        outcome, ev, st = client_start_run(chunks, r["client_start"].get("verbosity"), det)
         bad = client_start_judge(outcome, ev)
-        print("client start:", outcome, "|", bad and bad[0][:120], bad and bad[1])
+        print("client start:", outcome, det, "|", bad and bad[0][:120], bad and bad[1])
+        if r["client_start"].get("expect") == "accepted-or-rejected":
+            return outcome.split(" ")[0] not in ("0", "1")
         return bad is not None
     if "tx_probe" in r:
         probe = []
@@ -1079,8 +1379,9 @@ def replay(ctx, rp):
         return bool(probe)
     if "deliveries" in r:
         chunks = [bytes.fromhex(c) for c in r["deliveries"] if c != "-"]
-        got = impl_hs(chunks)
-        print("client outcome:", got, " stream-level spec:", r.get("stream_level_spec"))
+        det = {}
+        got = impl_hs(chunks, r.get("verbosity"), det)
+        print("client outcome:", got[:200], det, " verbosity:", r.get("verbosity"), " stream-level spec:", (r.get("stream_level_spec") or "")[:200])
         return got.split(" ")[0] != r.get("stream_level_spec", "").split(" ")[0]
     print("nothing replayable in", rp.get("kind"))
     return False
